@@ -137,6 +137,9 @@ func main() {
 		if env.Header && f.CtxField() != "" && r.Chance(0.5) {
 			extra = append(extra, f.CtxField())
 		}
+		if f.AncestorField() != "" && r.Chance(0.4) {
+			extra = append(extra, f.AncestorField())
+		}
 		if f.Name != "json" && f.Name != "xml" {
 			env.Ctx = ""
 		}
